@@ -8,6 +8,8 @@
 -/
 import LiteFSVerif.Model.Proxy
 import LiteFSVerif.Gen.Facts
+import LiteFSVerif.Gen.Skel
+import LiteFSVerif.Model.ExpectedSkel
 
 namespace LiteFSVerif.C19
 open LiteFSVerif LiteFSVerif.Proxy
@@ -117,5 +119,16 @@ example : parseTXID "zzzz" = 0 ∧ parseTXID "000000000000000g" = 0 ∧ parseTXI
 example : serveRead 3 [some 1, some 2, some 3, some 4] = .forwardAt 2 ∧ serveRead 3 [none, none] = .timeout ∧
     route { method := "POST", path := "/x", cookie := none } = .nonRead ∧
     route { method := "GET", path := "/fw/x", cookie := none } = .nonRead := by decide
+
+/-- further regenerated control skeletons (see Model/ExpectedSkel.lean): ProxyServer_serveHTTP, ProxyServer_serveRead, ProxyServer_serveNonRead, ProxyServer_proxyToTarget, ProxyServer_isWriteRequest, ProxyServer_isPassthrough, ProxyServer_isAlwaysForwarded -/
+theorem C19_source_skeletons :
+    Gen.Skel.ProxyServer_serveHTTP = Expected.Skel.ProxyServer_serveHTTP ∧
+    Gen.Skel.ProxyServer_serveRead = Expected.Skel.ProxyServer_serveRead ∧
+    Gen.Skel.ProxyServer_serveNonRead = Expected.Skel.ProxyServer_serveNonRead ∧
+    Gen.Skel.ProxyServer_proxyToTarget = Expected.Skel.ProxyServer_proxyToTarget ∧
+    Gen.Skel.ProxyServer_isWriteRequest = Expected.Skel.ProxyServer_isWriteRequest ∧
+    Gen.Skel.ProxyServer_isPassthrough = Expected.Skel.ProxyServer_isPassthrough ∧
+    Gen.Skel.ProxyServer_isAlwaysForwarded = Expected.Skel.ProxyServer_isAlwaysForwarded :=
+  ⟨rfl, rfl, rfl, rfl, rfl, rfl, rfl⟩
 
 end LiteFSVerif.C19
